@@ -40,9 +40,19 @@ Definition dc := default_codec Z.
 Definition check_flat (s : zstate) (flat : list Z) (ref : zstate) :=
   (flatten Z s, unflatten Z flat ref).
 
-Definition check_coupler (X : list zstate) (sizeRef : list nat) (flat : list Z) (Xref : list zstate) :=
-  let ms := map (fun _ => dc) X in
-  (cflatten Z zstate ms X, cunflatten Z zstate (map (fun _ => dc) Xref) sizeRef flat Xref).
+(* sub-model instructions: 0 = default, 1 = strict (reshape to the reference), S (S c) = greedy with rows of c+1... *)
+Definition codec_of (k : nat) : codec Z zstate :=
+  match k with
+  | O => dc
+  | S O => strict_codec Z
+  | S (S c) => greedy_codec Z (S c)
+  end.
+
+(* result: (flat, sizeRef, what each sub-model's unflattenX is handed, result of Coupler.unflattenX) *)
+Definition check_coupler (kinds : list nat) (X : list zstate) (sizeRef : list nat) (flat : list Z) (Xref : list zstate) :=
+  let ms := map codec_of kinds in
+  (cflatten Z zstate ms X, cunflatten_args Z zstate ms sizeRef flat Xref,
+   cunflatten Z zstate ms sizeRef flat Xref).
 
 (* the flatten / unflatten event log of a run whose derivatives have the layout of the state *)
 Definition same_layout_script (X0s : list (list zstate)) :=
